@@ -412,6 +412,22 @@ func errorHandled(f *ssa.Function, e ssa.Value) (bool, string) {
 					if bo.Op == token.EQL {
 						nonNil = ifi.Block().Succs[1]
 					}
+					// a message chosen on the non-nil branch and reported after the join (problem = "failed to decode …")
+					if len(nonNil.Preds) == 1 {
+						for _, succ := range nonNil.Succs {
+							for _, sin := range succ.Instrs {
+								phi, isPhi := sin.(*ssa.Phi)
+								if !isPhi {
+									break
+								}
+								for i, pred := range succ.Preds {
+									if pred == nonNil && i < len(phi.Edges) && isStringType(phi.Type()) && nonEmptyText(phi.Edges[i], 0) {
+										return true, "tested-and-converted-to-message"
+									}
+								}
+							}
+						}
+					}
 					// everything reached only through the non-nil branch
 					for _, blk := range f.Blocks {
 						if !dominatesBlock(nonNil, blk) || len(nonNil.Preds) != 1 {
